@@ -6,10 +6,10 @@ git -C /repo worktree add -q --detach "$d" "$c" || exit 3
 cd /verif
 stamp=$(mktemp /tmp/vstamp.XXXXXX)
 cp -r evidence /tmp/vat-evidence.$$ 2>/dev/null
-VERIF_REPO="$d" ./check "$id" "$tier" 2>&1 | grep -v '^    ' | cut -c1-260 | tail -${LINES_OUT:-14}
+VERIF_REPO="$d" ./check "$id" "$tier" 2>&1 | tee "$stamp" | grep -v '^    ' | cut -c1-260 | tail -${LINES_OUT:-14}
 rc=${PIPESTATUS[0]}
 rm -rf evidence; mv /tmp/vat-evidence.$$ evidence 2>/dev/null
-find /verif/replays -type f -newer "$stamp" -print0 2>/dev/null | xargs -0 -r rm -f
+grep -ho 'replay=/verif/replays/[^ ]*' "$stamp" | sed 's/^replay=//' | sort -u | xargs -r rm -f
 git -C /repo worktree remove --force "$d"
 echo "at $c exit=$rc"
 rm -f "$stamp"
